@@ -46,6 +46,34 @@ pub fn c20_memory_write_read() {
     std::mem::forget(mem);
 }
 
+/// Offsets accumulate: a pointer obtained by offsetting twice (what the generated clone/drop/eq helpers of nested
+/// aggregates do with a pointer into a value) addresses the byte at the sum of the offsets.
+#[cfg_attr(kani, kani::proof)]
+#[cfg_attr(kani, kani::unwind(18))]
+pub fn c20_memory_offset_twice() {
+    let off1: usize = any();
+    let off2: usize = any();
+    assume(off1 <= 15 && off2 <= 15 && off1 + off2 <= 15);
+    let mut mem = Memory::new();
+    let p = mem.allocate(16);
+    let q1 = mem.verif_offset_by(p, off1);
+    let q2 = mem.verif_offset_by(q1, off2);
+    let direct = mem.verif_offset_by(p, off1 + off2);
+    let v: u8 = any();
+    assume(v != 0);
+    mem.write(q2, &[v]);
+    let r = mem.read_slice(direct, 1);
+    assert!(r[0] == v, "a write through a twice-offset pointer is not at the sum of the offsets");
+    let whole: [u8; 16] = mem.read_array(p);
+    let mut k = 0;
+    while k < 16 {
+        assert!(whole[k] == if k == off1 + off2 { v } else { 0 }, "the write landed somewhere else");
+        k += 1;
+    }
+    cover!(off1 > 0 && off2 > 0, "both_offsets_non_zero");
+    std::mem::forget(mem);
+}
+
 /// Contrapositive of "invalid accesses stop loudly": whenever a write or read
 /// *completes*, it was in bounds and aligned. The evaluator's own
 /// `assert!`s firing for invalid inputs are the expected loud stops (the
@@ -98,4 +126,4 @@ pub fn c20_memory_dangling_frame() {
     assert!(false, "MUST-STOP: access through a pointer into a popped frame completed");
 }
 
-crate::list![c20_memory_write_read, c20_memory_rejects, c20_memory_dangling_frame];
+crate::list![c20_memory_write_read, c20_memory_rejects, c20_memory_dangling_frame, c20_memory_offset_twice];
